@@ -159,6 +159,17 @@ pub fn equal(a: &V, b: &V) -> EqR {
 pub enum FnResult {
     Val(V),
     Fail,
+    /// returns its first argument (null without arguments)
+    Echo,
+}
+
+/// how a call of a recording function appears in the log
+pub fn log_entry(name: &str, args: &[String]) -> String {
+    if args.is_empty() {
+        name.to_string()
+    } else {
+        format!("{}({})", name, args.join(","))
+    }
 }
 
 pub struct Ctx<'a> {
@@ -441,15 +452,20 @@ impl<'a> Ctx<'a> {
                     // recording function: arguments first, then the call itself
                     let refs: Vec<&E> = args.iter().collect();
                     let a = self.strict(&refs, scope);
-                    self.log.push(name.clone());
-                    if let Err(o) = a {
-                        // what a bound function receives for a failing argument is not stated
-                        let _ = o;
-                        return Out::Unspec;
-                    }
+                    let vals = match a {
+                        Ok(v) => v,
+                        Err(_) => {
+                            // whether a bound function runs at all when an argument fails is not stated
+                            self.log_unspecified = true;
+                            return Out::Unspec;
+                        }
+                    };
+                    let texts: Vec<String> = vals.iter().map(|v| v.canon()).collect();
+                    self.log.push(log_entry(name, &texts));
                     return match r {
                         FnResult::Val(v) => Out::Val(v),
                         FnResult::Fail => Out::Fail(FailClass::Other),
+                        FnResult::Echo => Out::Val(vals.into_iter().next().unwrap_or(V::Null)),
                     };
                 }
                 match name.as_str() {
